@@ -5,7 +5,13 @@ use std::path::PathBuf;
 use std::sync::Arc;
 use std::sync::atomic::{AtomicBool, AtomicU32, Ordering};
 use std::thread::{self};
+#[cfg(not(feature = "verif"))]
 use std::time::{Duration, Instant, SystemTime, UNIX_EPOCH};
+#[cfg(feature = "verif")]
+use std::time::Duration;
+
+#[cfg(feature = "verif")]
+use seglog::verif::{Instant, SystemTime, UNIX_EPOCH};
 
 use futures::stream::FuturesUnordered;
 use futures::{FutureExt, StreamExt, TryFutureExt};
@@ -142,6 +148,11 @@ impl WriterThreadPool {
                     let mut senders: Vec<_> =
                         senders.iter().map(|sender| sender.downgrade()).collect();
                     move || {
+                        #[cfg(feature = "verif")]
+                        if seglog::verif::installed() {
+                            // The simulator owns the timer: it sends FlushPoll itself.
+                            return;
+                        }
                         let mut last_ran = Instant::now();
                         loop {
                             let any_worker_active =
@@ -189,6 +200,31 @@ impl WriterThreadPool {
         &self.indexes
     }
 
+    /// Sends the syncer thread's `FlushPoll` to one writer thread (simulated timer tick).
+    #[cfg(feature = "verif")]
+    pub fn verif_flush_poll(&self, thread: usize) -> bool {
+        match self.senders.get(thread) {
+            Some(sender) => {
+                let sent = sender.try_send(WriteRequest::FlushPoll).is_ok();
+                if sent {
+                    seglog::verif::point("client:sent", thread as u64, 1);
+                }
+                sent
+            }
+            None => false,
+        }
+    }
+
+    #[cfg(feature = "verif")]
+    pub fn verif_num_threads(&self) -> usize {
+        self.senders.len()
+    }
+
+    #[cfg(feature = "verif")]
+    pub fn verif_thread_of_bucket(&self, bucket_id: BucketId) -> Option<u16> {
+        bucket_id_to_thread_id(bucket_id, &self.bucket_ids, self.num_threads)
+    }
+
     pub async fn append_events(
         &self,
         bucket_id: BucketId,
@@ -211,6 +247,8 @@ impl WriterThreadPool {
             })
             .await
             .map_err(|_| WriteError::WriterThreadNotRunning { bucket_id })?;
+        #[cfg(feature = "verif")]
+        seglog::verif::point("client:sent", target_thread as u64, 0);
         let mut full_append = reply_rx.await.map_err(|_| WriteError::NoThreadReply)??;
 
         full_append
@@ -385,7 +423,11 @@ impl Worker {
     }
 
     fn run(mut self, mut rx: Receiver) {
+        #[cfg(feature = "verif")]
+        seglog::verif::point("writer:idle", self.thread_id as u64, 0);
         while let Some(req) = rx.blocking_recv() {
+            #[cfg(feature = "verif")]
+            seglog::verif::point("writer:dequeued", self.thread_id as u64, 0);
             match req {
                 WriteRequest::AppendEvents {
                     bucket_id,
@@ -399,6 +441,8 @@ impl Worker {
                 }
                 WriteRequest::Shutdown => break,
             }
+            #[cfg(feature = "verif")]
+            seglog::verif::point("writer:idle", self.thread_id as u64, 0);
         }
 
         // Flush any remaining data on shutdown.
@@ -595,6 +639,8 @@ impl WriterSet {
             let (offset, len) = self.writer.append_event(req.confirmation_count, &append)?;
             offsets.push(offset);
             self.bytes_since_sync += len;
+            #[cfg(feature = "verif")]
+            seglog::verif::point("writer:event_written", offset, len as u64);
             // We need to guarantee:
             // - partition key is the same as previous event partition keys in the stream
             // - partition sequence doesn't reach u64::MAX
@@ -624,6 +670,8 @@ impl WriterSet {
                 },
             )?;
             self.bytes_since_sync += len;
+            #[cfg(feature = "verif")]
+            seglog::verif::point("writer:commit_written", 0, len as u64);
         }
 
         self.next_partition_sequences
@@ -632,6 +680,8 @@ impl WriterSet {
         self.unflushed_events += event_count as u32;
 
         self.writer.flush_writer()?;
+        #[cfg(feature = "verif")]
+        seglog::verif::point("writer:flushed", self.bucket_segment_id.bucket_id as u64, 0);
         self.sync_if_necessary();
 
         Ok(AppendResult {
@@ -677,6 +727,12 @@ impl WriterSet {
             }
         }
         self.sync_tx.send_replace(write_offset);
+        #[cfg(feature = "verif")]
+        seglog::verif::point(
+            "writer:sync:published",
+            self.bucket_segment_id.bucket_id as u64,
+            write_offset,
+        );
 
         Ok(())
     }
@@ -696,7 +752,11 @@ impl WriterSet {
     }
 
     fn rollover(&mut self) -> Result<(), WriteError> {
+        #[cfg(feature = "verif")]
+        seglog::verif::point("writer:rollover:begin", self.bucket_segment_id.bucket_id as u64, 0);
         self.sync()?;
+        #[cfg(feature = "verif")]
+        seglog::verif::point("writer:rollover:synced", self.bucket_segment_id.bucket_id as u64, 1);
 
         // Open new segment
         let old_bucket_segment_id = self.bucket_segment_id;
@@ -718,6 +778,8 @@ impl WriterSet {
             )?,
         );
 
+        #[cfg(feature = "verif")]
+        seglog::verif::point("writer:rollover:new_segment", self.bucket_segment_id.bucket_id as u64, 2);
         let event_index = OpenEventIndex::create(
             self.bucket_segment_id,
             SegmentKind::EventIndex.get_path(&self.dir, self.bucket_segment_id),
@@ -779,6 +841,8 @@ impl WriterSet {
             )
         };
 
+        #[cfg(feature = "verif")]
+        seglog::verif::point("writer:rollover:swapped", self.bucket_segment_id.bucket_id as u64, 3);
         self.reader_pool.add_bucket_segment(
             old_bucket_segment_id,
             &old_reader,
@@ -786,8 +850,12 @@ impl WriterSet {
             Some(&closed_partition_index),
             Some(&closed_stream_index),
         );
+        #[cfg(feature = "verif")]
+        seglog::verif::point("writer:rollover:sealed_installed", self.bucket_segment_id.bucket_id as u64, 4);
         self.reader_pool
             .add_bucket_segment(self.bucket_segment_id, &self.reader, None, None, None);
+        #[cfg(feature = "verif")]
+        seglog::verif::point("writer:rollover:end", self.bucket_segment_id.bucket_id as u64, 5);
 
         Ok(())
     }
